@@ -31,6 +31,8 @@ type c10Case struct {
 	Deflate  bool   `json:"deflate"`
 	SkipSig  bool   `json:"skip_sig"`
 	NoIssuer bool   `json:"no_idp_issuer"`
+	// FlagAttr: the (unsigned) root carries an attribute SignatureValidated="true"
+	FlagAttr bool `json:"self_asserted_flag_attr,omitempty"`
 }
 
 func c10Spec(c c10Case) idp.LogoutSpec {
@@ -84,6 +86,11 @@ func c10Spec(c c10Case) idp.LogoutSpec {
 // same kind whose own fields all pass the field checks.
 func c10Render(c c10Case) (enc string, genuineID string) {
 	if c.Sign < 5 {
+		if c.FlagAttr {
+			doc := idp.BuildLogout(c10Spec(c))
+			doc.Root().CreateAttr("SignatureValidated", "true")
+			return idp.Encode(idp.Bytes(doc, idp.Layout{}), c.Deflate), ""
+		}
 		return idp.RenderLogout(c10Spec(c)), ""
 	}
 	g := c10Spec(c)
@@ -386,12 +393,16 @@ func c10Cases() []c10Case {
 		c.SkipSig = ch.Bool("skip")
 		c.NoIssuer = ch.Bool("noissuer")
 		cases = append(cases, c)
+		if c.Sign == 0 {
+			c.FlagAttr = true
+			cases = append(cases, c)
+		}
 	})
 	return cases
 }
 
 func c10Run(r *mc.Run) {
-	r.Rule = "full product kind(2) x Version(3) x Destination(5: SLO URL, absent, empty, ACS URL, evil) x Issuer(3) x Status(4, LogoutResponse) x signing state(9: unsigned, K1, K2, untrusted, tampered, 4 wrapping/relocation shapes) x presentation(2) x signature checking(2) x IdP issuer configured(2); kind-confusion matrix 3x3x2x2; ValidateDecoded* on hand-built structs (full field product); non-trivial = the message reached the field checks or the signature logic (all do); distinct = distinct case"
+	r.Rule = "full product kind(2) x Version(3) x Destination(5: SLO URL, absent, empty, ACS URL, evil) x Issuer(3) x Status(4, LogoutResponse) x signing state(9: unsigned, K1, K2, untrusted, tampered, 4 wrapping/relocation shapes) x presentation(2) x signature checking(2) x IdP issuer configured(2), unsigned roots also with a self-asserted SignatureValidated attribute; kind-confusion matrix 3x3x2x2; ValidateDecoded* on hand-built structs (full field product); non-trivial = the message reached the field checks or the signature logic (all do); distinct = distinct case"
 	r.Assume("RSA unforgeable", "goxmldsig canonicalisers used by the harness signer")
 	cases := c10Cases()
 	n := len(cases)
